@@ -62,6 +62,19 @@ func respScenarios(tier string) []*mc.Scenario {
 			reqp("call.test.m.set", `{"a":2}`, 0), req("subscribe.test.m", 0), req("unsubscribe.test.m", 1))},
 		Menu: menuStd(true, true),
 	})
+	// several requests outstanding on one resource while an unsubscribe takes
+	// away only part of the direct count: the subscription object survives,
+	// and every outstanding request must still be answered whatever the load
+	// ends in
+	out = append(out, &mc.Scenario{
+		Name: "resp/partial-unsubscribe", Props: props, Init: basicInit, Monitors: allMons(),
+		Conns: []mc.ConnSpec{conn(latest,
+			req("subscribe.test.m", 0), req("subscribe.test.m", 0), req("unsubscribe.test.m", 0),
+			req("get.test.m", 0), req("subscribe.test.m", 0))},
+		Menu: menuStd(true, true),
+		// the service is slow: by default all requests are outstanding together
+		Slow: func(r *mc.Req) bool { return true },
+	})
 	out = append(out, &mc.Scenario{
 		Name: "resp/child-and-parent", Props: props, Init: basicInit, Monitors: allMons(),
 		Conns: []mc.ConnSpec{conn(latest,
